@@ -241,6 +241,90 @@ function familyT (tier, opts = {}) {
   return { leaves, stats: r.stats }
 }
 
+// ---- generated operation families (bounded-exhaustive grammars instead of hand-written lists) ------------
+// H: member/call chains. chain := base link{1..L}; every link plain or optional; the prefix before any link may be
+// closed by parentheses (short-circuiting stops there). Only chains holding a configured method are kept.
+const H_LINKS = {
+  prop: (q) => q + 'q', trim: (q) => q + 'trim()', concat: (q) => q + 'concat(a)', key: (q) => (q === '.' ? '' : q) + '[k]',
+  call: (q) => (q === '.' ? '' : q) + '(b)', method: (q) => q + 'm(b)', length: (q) => q + 'length'
+}
+function familyH (tier, opts = {}) {
+  const L = opts.L || (tier === 'thorough' ? 4 : 3)
+  const bases = tier === 'thorough' ? ['s', 'o', 'g()'] : ['s', 'o']
+  const kinds = Object.keys(H_LINKS)
+  const leaves = []
+  const stats = { states: 1, transitions: 0 }
+  const rec = (text, n, hasCsi, closed) => {
+    stats.states++
+    if (n > 0 && hasCsi) leaves.push(mkLeaf('H', { op: text, opkind: 'chain' }))
+    if (n === L) return
+    for (const k of kinds) {
+      for (const q of ['.', '?.']) {
+        stats.transitions++
+        rec(text + H_LINKS[k](q), n + 1, hasCsi || k === 'trim' || k === 'concat', closed)
+        // close what is there so far in parentheses, once, if it already holds an optional link
+        if (!closed && n > 0 && text.includes('?.')) { stats.transitions++; rec('(' + text + ')' + H_LINKS[k](q), n + 1, hasCsi || k === 'trim' || k === 'concat', true) }
+      }
+    }
+  }
+  for (const b of bases) rec(b, 0, false, false)
+  return { leaves, stats }
+}
+
+// Q: Function.prototype forms. <holder>.<method>.<call|apply>(args), args = every sequence of <= N argument forms
+const Q_ARGS = ['a', "'lit'", 'f()', '...arr', '[b, f()]', '[]', 'undefined', 'null', '[...arr, b]']
+function familyQ (tier, opts = {}) {
+  const N = tier === 'thorough' ? 3 : 2
+  // (a holder that is a logged spy, `o.concat`, is left out: reading a static path after the this argument is the
+  // stated exemption of C01 and a logging spy would report it)
+  const holders = tier === 'thorough' ? ['X.prototype', 'String.prototype', 'g()', 'X.prototype.q'] : ['X.prototype', 'g()']
+  const leaves = []
+  const stats = { states: 1, transitions: 0 }
+  const dims = [{ name: 'holder', symbols: holders, free: true }, { name: 'method', symbols: ['concat', 'trim'], free: true }, { name: 'fn', symbols: ['call', 'apply'], free: true }]
+  for (let i = 0; i < N; i++) dims.push({ name: 'a' + i, symbols: [null].concat(Q_ARGS), free: true })
+  // quick: a third argument taken from a short list, after every pair
+  if (tier !== 'thorough') dims.push({ name: 'a2', symbols: [null, 'f()', 'a'], free: true })
+  const last = dims.length - 3
+  const r = enumerate(dims, { valid: (cur, i) => { const j = i - 3; return !(j >= 1 && cur['a' + (j - 1)] === null && cur['a' + j] !== null) } })
+  for (const l of r.leaves) {
+    const args = []
+    for (let i = 0; i < last; i++) if (l.pick['a' + i] !== null && l.pick['a' + i] !== undefined) args.push(l.pick['a' + i])
+    leaves.push(mkLeaf('Q', { op: `${l.pick.holder}.${l.pick.method}.${l.pick.fn}(${args.join(', ')})`, opkind: 'proto' }))
+  }
+  return { leaves, stats: addStats(stats, r.stats) }
+}
+
+// R: `+=` targets. target := base access{0..2}, wrapped in 0..2 pairs of parentheses, x right-hand sides
+const R_BASES = { x: 'x', o: 'o', call: 'g()', this: 'this', args: 'arguments', sup: 'super' }
+const R_ACCESS = ['.p', '[k]', '[f()]', '[i++]', '.q', "['p']", '[(f(), k)]']
+function familyR (tier, opts = {}) {
+  const leaves = []
+  const stats = { states: 1, transitions: 0 }
+  const rhs = tier === 'thorough' ? ['b', 'f()', "'lit'", 'a + b', '`${a}`'] : ['b', 'f()', 'a + b']
+  const targets = []
+  for (const [bn, b] of Object.entries(R_BASES)) {
+    if (bn === 'x') targets.push([bn, b])
+    for (const a1 of R_ACCESS) {
+      if (a1 === '.q') continue
+      targets.push([bn, b + a1])
+      for (const a0 of ['.q', '[k]', '[f()]']) if (bn !== 'sup' && bn !== 'args') targets.push([bn, b + a0 + a1])
+    }
+  }
+  for (const [bn, t] of targets) {
+    for (const depth of [0, 1, 2]) {
+      for (const r of rhs) {
+        stats.states++; stats.transitions++
+        const target = '('.repeat(depth) + t + ')'.repeat(depth)
+        let op = `${target} += ${r}`
+        if (bn === 'sup') op = `new (class extends X { m() { return ${op} } })().m()`
+        else if (bn === 'args') op = `(function () { return ${op} })(a, b)`
+        leaves.push(mkLeaf('R', { op, opkind: 'assign' }))
+      }
+    }
+  }
+  return { leaves, stats }
+}
+
 // P: operations whose operands are `+` expressions, under configurations with the plus operator DISABLED
 // (the operand is then not turned into a hook call by the child-first traversal)
 function familyP (tier, opts = {}) {
@@ -248,7 +332,7 @@ function familyP (tier, opts = {}) {
   const leaves = []
   let stats = { states: 0, transitions: 0 }
   const extra = [{ kind: 'method', tpl: 'a.concat(b + f(), a)', slots: [] }, { kind: 'method', tpl: 'a.concat(a + f(), b, a)', slots: [] }, { kind: 'tpl', tpl: '`${b + f()}${a}`', slots: [] }, { kind: 'bare', tpl: 'aloneMethod(b + f(), a)', slots: [] }]
-  for (const sc of G.SCHEMAS.filter((x) => ['tpl', 'method', 'proto', 'bare', 'chain'].includes(x.kind) && x.slots.length).concat(extra)) {
+  for (const sc of G.SCHEMAS.filter((x) => ['tpl', 'method', 'proto', 'bare', 'chain'].includes(x.kind) && x.slots.length && !x.surplus).concat(extra)) {
     const r = enumerate(sc.slots.map((s) => ({ name: s, symbols: s === 'S' ? ['arr'] : atoms, free: true })).concat([{ name: 'config', symbols: ['METHODS_ONLY', 'TPL_ONLY', 'FULL'], free: true }]), {})
     stats = addStats(stats, r.stats)
     for (const l of r.leaves) leaves.push(mkLeaf('P', Object.assign({ op: sc.tpl, opkind: sc.kind }, l.pick)))
@@ -259,7 +343,7 @@ function familyP (tier, opts = {}) {
 function all (tier, opts = {}) {
   let leaves = []
   let stats = { states: 1, transitions: 0 }
-  const fams = { A: familyA, B: familyB, C: familyC, G: familyG, M: familyM, S: familyS, P: familyP, T: familyT }
+  const fams = { A: familyA, B: familyB, C: familyC, G: familyG, M: familyM, S: familyS, P: familyP, T: familyT, H: familyH, Q: familyQ, R: familyR }
   for (const f of (opts.families || ['A', 'B', 'C', 'G'])) {
     const r = fams[f](tier, opts[f] || {})
     leaves = leaves.concat(r.leaves)
@@ -272,4 +356,4 @@ function all (tier, opts = {}) {
   return { leaves: uniq, stats }
 }
 
-module.exports = { familyT, familyP, familyA, familyB, familyC, familyG, familyM, familyS, M_FNS, S_STMTS, all, REP_OPS, REP_OPS_Q, CONFIGS, mkLeaf }
+module.exports = { familyH, familyQ, familyR, familyT, familyP, familyA, familyB, familyC, familyG, familyM, familyS, M_FNS, S_STMTS, all, REP_OPS, REP_OPS_Q, CONFIGS, mkLeaf }
